@@ -35,6 +35,7 @@ type C15Case struct {
 	// Go function type, whose value sets are loaded and re-read in turn
 	Shapes [][]int `json:"shapes,omitempty"` // positional types (distinct within a shape) per shape
 	Named  []bool  `json:"namedShape,omitempty"`
+	Ptr    []bool  `json:"ptrShape,omitempty"` // struct-form shapes taking/returning a POINTER to the struct
 	Hs     []int   `json:"hs,omitempty"` // handle -> shape
 	Ops    []ObjOp `json:"ops,omitempty"`
 }
@@ -375,6 +376,9 @@ func evalC15Objects(v *engine.Verdict, x *C15Case) {
 				sf = append(sf, reflect.StructField{Name: fmt.Sprintf("F%d", i), Type: engine.Types[t]})
 			}
 			st := reflect.StructOf(sf)
+			if si < len(x.Ptr) && x.Ptr[si] {
+				st = reflect.PtrTo(st)
+			}
 			ft := reflect.FuncOf([]reflect.Type{st}, []reflect.Type{st}, false)
 			sh.fn = reflect.MakeFunc(ft, func(a []reflect.Value) []reflect.Value { return a }).Interface()
 		} else {
@@ -466,8 +470,14 @@ func evalC15Objects(v *engine.Verdict, x *C15Case) {
 		case "loadIn", "loadOut":
 			out := op.Op == "loadOut"
 			if h.sh.named {
-				// a struct-form signature is ONE value: the struct
-				st := reflect.New(reflect.TypeOf(h.sh.fn).In(0)).Elem()
+				// a struct-form signature is ONE value: the struct (also for
+				// pointer forms: Signature() names the struct type itself)
+				sig := set(h, out).Signature()
+				if len(sig) != 1 || sig[0].Kind() != reflect.Struct {
+					v.Failf("Signature() of a struct-form side is %v, want the one struct type", sig)
+					return
+				}
+				st := reflect.New(sig[0]).Elem()
 				for i, t := range h.sh.types {
 					st.Field(i + 1).Set(engine.MakeValue(t, op.Base+i))
 				}
@@ -670,6 +680,10 @@ func genC15(g engine.G) *engine.Case {
 	case k < 4:
 		x.Mode = "set"
 		names := []string{"a", "B", "cD", "EF", "g1"}
+		if g.Pct(25) {
+			// value names need not be Go identifiers (a tag can declare any)
+			names = []string{"a", "my-value", "9lives", "a/b", "ünï", "Two Words", "x.y"}
+		}
 		usedN, usedT, usedTS := map[string]bool{}, map[int]bool{}, map[string]bool{}
 		n := g.Int(1, 5)
 		for tries := 0; len(x.Vals) < n && tries < 30; tries++ {
@@ -704,7 +718,8 @@ func genC15(g engine.G) *engine.Case {
 		for si := 0; si < ns; si++ {
 			perm := rapidPerm(g, []int{0, 1, 2, 3, 4, 5})
 			x.Shapes = append(x.Shapes, perm[:g.Int(1, 3)])
-			x.Named = append(x.Named, g.Pct(40))
+			x.Named = append(x.Named, g.Pct(50))
+			x.Ptr = append(x.Ptr, g.Pct(40))
 		}
 		nh := g.Int(2, 4)
 		for i := 0; i < nh; i++ {
